@@ -153,6 +153,26 @@ CHECKS = {
    note="Trusted: TLC, HashVerify.tla. Known finding (recorded): verify() matches on the truncated portion even with truncate_error=True (documented "
         "library policy). lmhash only in its default single-byte encoding; the maximum is measured on ASCII passwords.",
    technique="TLA+ spec (HashVerify.tla) model-checked with TLC + spec-to-implementation replay with byte-exact boundary placement"),
+ "C07": dict(cat=MC, design="DESIGN.md §3 C07",
+   text="HashFormat.tla treats a hash as a structured value (ident, cost incl. the elided default in both spellings, salt class, digest, spelling) per "
+        "grammar family whose facts are extracted from the hasher; TLC checks that parsing reports the settings used, that re-rendering is canonical "
+        "and idempotent and that canonical texts are fixed points for every value of every family; each enumerated value is concretised on the real "
+        "hasher (real salt and digest) in the prescribed spelling (hex case swapped, padding bits set, default cost written out) and passed as str and "
+        "bytes through from_string().to_string(), parsehash() and verify(); wrappers go through the same path; libpass inspect_* / PHC records are "
+        "round-tripped on real strings.",
+   note="Trusted: TLC, HashFormat.tla; which families normalise hex case / repair padding bits comes from the documentation. Config-only strings are "
+        "not concretised. Token-level, not character-level grammars.",
+   technique="TLA+ spec (HashFormat.tla) model-checked with TLC over families extracted from the code + spec-to-implementation replay"),
+ "C08": dict(cat=MC, design="DESIGN.md §3 C08",
+   text="Trace_HashFormat (over HashFormat.tla and Codec.tla) validates events recorded from the real hashers: for ~30 (quick) / all (thorough) "
+        "hashers valid hashes are mutated at character level (substitution from a probe set incl. NUL/non-ASCII/separators, deletion, insertion, "
+        "truncation at every position, empty) and token level (dropped/duplicated fields, zero-padded/oversized numbers, bare ident, hex case, "
+        "padding bits), as str and bytes, through the hasher and a CryptContext; TLC checks identify answers True/False, verify/needs_update answer "
+        "or raise value/type errors only, and for every verify that answered True applies the family's documented normalisation to the recorded "
+        "character codes itself and demands equality with the original.",
+   note="Trusted: TLC, the normalisation operators of the spec. Known findings (recorded): lenient decoders accept undocumented re-spellings of the "
+        "same digest bits; mssql2000 ignores its first digest. scram (multi-digest) is exempt from the integrity clause.",
+   technique="TLA+ trace validation (Trace_HashFormat.tla) of mutation events recorded from the real hashers"),
 }
 PENDING = {}
 props = [json.loads(l) for l in open(os.path.join(HERE, "properties.jsonl"))]
